@@ -235,10 +235,13 @@ def stereo_mol_graph_to_rdmol(
                 ]
             )
 
-            if neighbors in {p[1:] for p in a_stereo._perm_atoms()}:
-                rd_atom.SetUnsignedProp("_chiralPermutation", 1)
-            else:
-                rd_atom.SetUnsignedProp("_chiralPermutation", 2)
+            # SP1: U shape, SP2: 4 shape, SP3: Z shape
+            sp_orders = {1: (0, 1, 2, 3), 2: (0, 2, 1, 3), 3: (0, 1, 3, 2)}
+            sp_atoms = {p[1:] for p in a_stereo._perm_atoms()}
+            for sp_perm, sp_order in sp_orders.items():
+                if tuple([neighbors[i] for i in sp_order]) in sp_atoms:
+                    rd_atom.SetUnsignedProp("_chiralPermutation", sp_perm)
+                    break
 
         elif a_stereo is not None and isinstance(
             a_stereo, TrigonalBipyramidal
